@@ -66,7 +66,7 @@ def _roundtrip(job):
             fails.append({'what': f"{fmt}: printed text is rejected by the loader ({type(ex).__name__}: {str(ex)[:100]}); text {text[:120]!r}",
                           'class': f'c12-reparse-fails:{fmt}'})
             return _tag(fails, job)
-        if not (t1 == t2) and gt.canon(t1) != gt.canon(t2):     # PLISTNode defines no __eq__: compare structurally
+        if gt.canon(t1) != gt.canon(t2):     # structural comparison (not the node classes' own __eq__, which a change could loosen)
             fails.append({'what': f"{fmt}: document re-loaded from its own printing differs: {str(t1)[:120]!r} vs {str(t2)[:120]!r} "
                                   f"(text {text[:120]!r})", 'class': f'c12-reparse-differs:{fmt}'})
     except Exception as ex:
